@@ -19,8 +19,8 @@ import traceback
 from . import loader
 
 VERIF = os.path.dirname(os.path.dirname(os.path.abspath(__file__)))
-EVIDENCE_DIR = os.path.join(VERIF, "evidence")
-REPLAY_DIR = os.path.join(VERIF, "replays")
+EVIDENCE_DIR = os.environ.get("SDPV_EVIDENCE_DIR") or os.path.join(VERIF, "evidence")
+REPLAY_DIR = os.environ.get("SDPV_REPLAY_DIR") or os.path.join(VERIF, "replays")
 KNOWN_FILE = os.path.join(VERIF, "known_findings.json")
 WORKERS = int(os.environ.get("VERIF_WORKERS", "16"))
 SHAPE_ERRORS = (KeyError, TypeError, IndexError, AttributeError, ValueError, AssertionError)
